@@ -127,59 +127,81 @@ def run(tier):
     e0['hists'][0]['runs'] = [dict(rn, ops=rn['ops'][:4]) for rn in e0['hists'][0]['runs'][:2]]
     c.samples.append(vlib._shorten(e0, 1500))
 
-    # binding self-test: take one recorded non-empty answer of an eager instance, check that this single observation is
-    # accepted, then corrupt it (answer dropped / has_location contradicting it / the site removed from the VCF)
-    cand = None
+    # binding self-test: take one recorded non-empty answer of an eager instance FROM A HISTORY TLC ACCEPTED in the main
+    # validation, check that this single observation is accepted, then corrupt it (answer dropped / has_location contradicting
+    # it / the site removed from the VCF).  If the code under test is wrong and no accepted observation is left, the self-test
+    # is skipped with a note (the violations are reported anyway) - a defect of the code is never a machinery failure.
+    bad_hists, bad_lines = set(), set()
+    for x in r['rejects']:
+        parts = dict(q.split('=') for q in x['clause'].split('|')[1:] if '=' in q)
+        if 'h' in parts:
+            bad_hists.add((x['line'], int(parts['h'])))
+        else:
+            bad_lines.add(x['line'])           # event-level clause (Inv_C18_ModeEq): no history of this event is used
+    cands = []
     for i, e in enumerate(events):
+        if (i + 1) in bad_lines:
+            continue
         for hi, h in enumerate(e['hists']):
+            if (i + 1, hi + 1) in bad_hists:
+                continue
             for ri, rn in enumerate(h['runs']):
-                if rn['lazy'] or rn['cache'] or not rn['phased']:
-                    continue
-                if rn['ign'] or rn['sel']['explicit']:
+                if rn['lazy'] or rn['cache'] or not rn['phased'] or rn['ign'] or rn['sel']['explicit']:
                     continue
                 for oi, o in enumerate(rn['ops']):
                     site = [x for x in e['sites'] if x['c'] == o['c'] and x['p'] == o['p']]
                     # a plain SNV record without missing genotypes: its classification is unambiguous ("store")
-                    plain = site and len(site[0]['ref']) == 1 and all(len(a) == 1 for a in site[0]['alts']) and \
-                        all(a != '.' and len(a) == 1 for g in site[0]['gt'].values() for a in g)
+                    plain = site and len(site[0]['ref']) == 1 and all(len(a) == 1 and a in 'ACGT' for a in site[0]['alts']) and \
+                        all(a != '.' and len(a) == 1 and a in 'ACGT' for g in site[0]['gt'].values() for a in g)
                     if o['op'] == 'get' and o['ans'] and plain:
-                        cand = (i, hi, ri, oi)
+                        cands.append((i, hi, ri, oi))
                         break
-                if cand:
+                if len(cands) >= 3:
                     break
-            if cand:
+            if len(cands) >= 3:
                 break
-        if cand:
+        if len(cands) >= 3:
             break
-    if cand is None:
-        raise vlib.MachineryError('no non-empty answer of an eager instance available for the binding self-test')
-    i, hi, ri, oi = cand
-    mini = copy.deepcopy(events[i])
-    rn = mini['hists'][hi]['runs'][ri]
-    rn['ops'] = [rn['ops'][oi]]
-    mini['hists'] = [{'kind': 'selftest', 'runs': [rn]}]
-    pm = os.path.join(vlib.scratch(), 'selftest_c18_base.ndjson')
-    vlib.write_ndjson(pm, [mini])
-    rb = vlib.validate_trace('Trace_Alleles', pm)
-    c.selftest('base_observation_accepted', not rb['rejects'], 'rejects=%s' % rb['rejects'])
+    mini = None
+    for (i, hi, ri, oi) in cands:
+        m = copy.deepcopy(events[i])
+        rn = m['hists'][hi]['runs'][ri]
+        rn['ops'] = [rn['ops'][oi]]
+        m['hists'] = [{'kind': 'selftest', 'runs': [rn]}]
+        pm = os.path.join(vlib.scratch(), 'selftest_c18_base_%d.ndjson' % i)
+        vlib.write_ndjson(pm, [m])
+        rb = vlib.validate_trace('Trace_Alleles', pm)
+        if not rb['rejects']:
+            mini = m
+            break
+    if mini is None:
+        if r['rejects']:
+            c.extra['binding_selftest_skipped'] = ('no observation accepted by TLC was available as base (the code under test '
+                                                   'is being rejected: %d rejects); violations are reported' % len(r['rejects']))
+            print('NOTE: binding self-test skipped - no accepted observation left to corrupt (violations are reported)')
+        else:
+            raise vlib.MachineryError('no accepted non-empty eager answer available for the binding self-test although '
+                                      'TLC rejected nothing')
+    else:
+        c.selftest('base_observation_accepted', True, 'tid=%s' % mini.get('tid'))
 
-    def mut_drop(evs):
-        evs[0]['hists'][0]['runs'][0]['ops'][0]['ans'] = []
-        return evs
+        def mut_drop(evs):
+            evs[0]['hists'][0]['runs'][0]['ops'][0]['ans'] = []
+            return evs
 
-    def mut_has(evs):
-        o = evs[0]['hists'][0]['runs'][0]['ops'][0]
-        evs[0]['hists'][0]['runs'][0]['ops'].append({'op': 'has', 'c': o['c'], 'p': o['p'], 'b': '-', 'ans': False, 'raised': 'none'})
-        return evs
+        def mut_has(evs):
+            o = evs[0]['hists'][0]['runs'][0]['ops'][0]
+            evs[0]['hists'][0]['runs'][0]['ops'].append({'op': 'has', 'c': o['c'], 'p': o['p'], 'b': '-', 'ans': False, 'raised': 'none'})
+            return evs
 
-    def mut_site(evs):      # change the VCF instead of the answer: the recorded answer no longer fits
-        o = evs[0]['hists'][0]['runs'][0]['ops'][0]
-        evs[0]['sites'] = [s for s in evs[0]['sites'] if not (s['c'] == o['c'] and s['p'] == o['p'])]
-        return evs
+        def mut_site(evs):      # change the VCF instead of the answer: the recorded answer no longer fits
+            o = evs[0]['hists'][0]['runs'][0]['ops'][0]
+            evs[0]['sites'] = [s for s in evs[0]['sites'] if not (s['c'] == o['c'] and s['p'] == o['p'])]
+            return evs
 
-    vlib.corrupt_selftest(c, 'Trace_Alleles', [mini], mut_drop, 'answer_dropped')
-    vlib.corrupt_selftest(c, 'Trace_Alleles', [mini], mut_has, 'has_location_false_on_stored_site')
-    vlib.corrupt_selftest(c, 'Trace_Alleles', [mini], mut_site, 'site_removed_from_vcf')
+        vlib.corrupt_selftest(c, 'Trace_Alleles', [mini], mut_drop, 'answer_dropped')
+        vlib.corrupt_selftest(c, 'Trace_Alleles', [mini], mut_has, 'has_location_false_on_stored_site')
+        vlib.corrupt_selftest(c, 'Trace_Alleles', [mini], mut_site, 'site_removed_from_vcf')
     c.assumptions += [
         'generated VCFs have one record per position, samples with GT only, selected samples exist in the VCF and are distinct',
         'a history works on its own symlink of the compressed VCF, so its cache directory starts empty',
